@@ -3736,10 +3736,13 @@ static WBXMLError wbxml_strtbl_initialize(WBXMLEncoder *encoder, WBXMLTreeNode *
     one_ref = NULL;
 
     /* Keep Strings referenced more than one time */
-    if (strings != NULL)
+    if (strings != NULL) {
         wbxml_strtbl_check_references(encoder, &strings, &one_ref, FALSE);
 
-    /* 'strings' is destroyed after call of wbxml_strtbl_check_references() */
+        /* 'strings' is destroyed by wbxml_strtbl_check_references(), unless it failed before
+         * touching it: the words are ours */
+        wbxml_list_destroy(strings, wbxml_buffer_destroy_item);
+    }
 
     /* Cleanup */
     wbxml_list_destroy(one_ref, wbxml_strtbl_element_destroy_item);
